@@ -584,6 +584,11 @@ func (d *Driver) Replay(bi int, b Behaviour) {
 	if d.subs != nil {
 		d.checkSubs(bi, ds)
 	}
+	for ni, o := range ds.lastObs {
+		if o != nil && o.Exists && ds.docID != "" {
+			d.dagInvariants(bi, len(b), ds.docID, ni)
+		}
+	}
 	d.finalChecks(bi, len(b), ds)
 }
 
@@ -1348,6 +1353,175 @@ func (d *Driver) checkDAG(bi, si int, ds *docState, ni int, o *Obs) {
 		d.res.Comparisons++
 		if strings.Join(got, ",") != strings.Join(want, ",") {
 			d.violate("C04", bi, si, "commits-query", "node %s: commits query lists %v, want the merged commits %v", n.Name, short(got), short(want))
+		}
+	}
+}
+
+// dagInvariants evaluates the specification's graph invariants directly on the block graph of the real node, for every
+// block reachable from the document's heads (no id map needed): Closed (every parent and field link resolves),
+// HeightRule (height = 1 + the greatest height among the parents; 1 for a block without parents) and RefHeads as an
+// antichain condition (no reported head is an ancestor of another reported head).
+func (d *Driver) dagInvariants(bi, si int, docID string, ni int) int {
+	n := d.nodes[ni]
+	hs, err := d.heads(n, docID)
+	if err != nil || len(hs) == 0 {
+		return 0
+	}
+	height := map[string]uint64{}
+	var visit func(c cid.Cid, field bool) (uint64, bool)
+	anc := map[string]map[string]bool{} // head -> composite ancestors
+	var curHead string
+	visit = func(c cid.Cid, field bool) (uint64, bool) {
+		key := c.String()
+		if !field && curHead != "" {
+			anc[curHead][key] = true
+		}
+		if h, ok := height[key]; ok {
+			return h, true
+		}
+		blk, _, err := n.GetBlock(d.ctx, c)
+		if err != nil {
+			d.violate("C04", bi, si, "closed", "node %s: block %s reachable from the heads of %s is not in the block store: %v", n.Name, c, docID, err)
+			return 0, false
+		}
+		d.res.Comparisons++
+		h := blk.Delta.GetPriority()
+		height[key] = h
+		var maxPar uint64
+		for _, p := range blk.Heads {
+			ph, ok := visit(p.Cid, field)
+			if ok && ph > maxPar {
+				maxPar = ph
+			}
+		}
+		if h != maxPar+1 {
+			d.violate("C04", bi, si, "height", "node %s: block %s has height %d but the greatest height among its %d parents is %d (want %d)", n.Name, c, h, len(blk.Heads), maxPar, maxPar+1)
+		}
+		if !field {
+			for _, l := range blk.Links {
+				visit(l.Cid, true)
+			}
+		}
+		return h, true
+	}
+	for _, h := range hs {
+		c, err := cid.Decode(h)
+		if err != nil {
+			continue
+		}
+		curHead = h
+		anc[h] = map[string]bool{}
+		visit(c, false)
+	}
+	// the walk memoises heights, so ancestors of a later head that were already visited are not re-entered: complete the
+	// ancestor sets with a plain reachability pass
+	for _, h := range hs {
+		seen := map[string]bool{}
+		var walk func(c cid.Cid)
+		walk = func(c cid.Cid) {
+			if seen[c.String()] {
+				return
+			}
+			seen[c.String()] = true
+			blk, _, err := n.GetBlock(d.ctx, c)
+			if err != nil {
+				return
+			}
+			for _, p := range blk.Heads {
+				walk(p.Cid)
+			}
+		}
+		c, _ := cid.Decode(h)
+		walk(c)
+		for _, o := range hs {
+			if o != h && seen[o] {
+				d.violate("C04", bi, si, "heads", "node %s: reported head %s of %s is an ancestor of reported head %s", n.Name, o, docID, h)
+			}
+		}
+	}
+	return len(height)
+}
+
+// DeepScenario builds two long diverged histories of one document (a and b updates on two nodes), exchanges them and
+// writes on top of both: heights cross the one-byte / two-byte boundaries of their encoding. The specification's
+// rules are evaluated on the resulting graphs (dagInvariants) and the counter must be the sum of all increments.
+func (d *Driver) DeepScenario(bi, a, b int) {
+	if len(d.nodes) < 2 || len(d.cfg.Ctrs) == 0 {
+		return
+	}
+	d.serial++
+	f := d.ctrF[d.cfg.Ctrs[0]][0]
+	tag := fmt.Sprintf("deep-%d-%d-%d", d.cfg.Seed, d.serial, d.rng.Int63())
+	n1, n2 := d.nodes[0], d.nodes[1]
+	var docID string
+	for _, n := range []*cluster.Node{n1, n2} {
+		data, err := n.Exec(d.ctx, fmt.Sprintf(`mutation { create_Doc(input: {tag: %q, %s: 1}) { _docID } }`, tag, f.Name))
+		if err != nil {
+			d.herr("deep: create: %v", err)
+			return
+		}
+		docID = cluster.Rows(data, "create_Doc")[0]["_docID"].(string)
+	}
+	upd := func(n *cluster.Node, k int) bool {
+		for i := 0; i < k; i++ {
+			if _, err := n.Exec(d.ctx, fmt.Sprintf(`mutation { update_Doc(docID: %q, input: {%s: 1}) { _docID } }`, docID, f.Name)); err != nil {
+				d.violate("C02", bi, 0, "local-write-refused", "deep history: update %d on %s refused: %v", i, n.Name, err)
+				return false
+			}
+		}
+		return true
+	}
+	if !upd(n1, a) || !upd(n2, b) {
+		return
+	}
+	headOf := func(n *cluster.Node) (cid.Cid, bool) {
+		hs, err := d.heads(n, docID)
+		if err != nil || len(hs) != 1 {
+			d.violate("C04", bi, 0, "heads-after-local-write", "deep history: heads of %s after its local updates: %v %v (want exactly one)", n.Name, hs, err)
+			return cid.Undef, false
+		}
+		c, _ := cid.Decode(hs[0])
+		return c, true
+	}
+	h1, ok1 := headOf(n1)
+	h2, ok2 := headOf(n2)
+	if !ok1 || !ok2 {
+		return
+	}
+	deliver := func(from, to *cluster.Node, c cid.Cid) bool {
+		if _, err := cluster.CopyClosure(d.ctx, from, to, c); err != nil {
+			d.herr("deep: copy: %v", err)
+			return false
+		}
+		if err := to.Merge(d.ctx, d.colID, docID, c); err != nil {
+			d.violate("C01", bi, 0, "merge-failed", "deep history: merge of %s's head into %s failed: %v", from.Name, to.Name, err)
+			return false
+		}
+		return true
+	}
+	if !deliver(n2, n1, h2) || !deliver(n1, n2, h1) {
+		return
+	}
+	if !upd(n1, 1) || !upd(n2, 1) {
+		return
+	}
+	d.res.Behaviours++
+	d.res.Steps += a + b + 6
+	for ni := 0; ni < 2; ni++ {
+		blocks := d.dagInvariants(bi, 0, docID, ni)
+		if blocks < a+b {
+			d.violate("C04", bi, 0, "closed", "deep history: only %d blocks reachable from the heads of %s, expected more than %d", blocks, d.nodes[ni].Name, a+b)
+		}
+		data, err := d.nodes[ni].Exec(d.ctx, fmt.Sprintf(`query { Doc(docID: %q) { %s } }`, docID, f.Name))
+		if err != nil || len(cluster.Rows(data, "Doc")) != 1 {
+			d.violate("C02", bi, 0, "counter", "deep history: document not readable on %s: %v", d.nodes[ni].Name, err)
+			continue
+		}
+		got, _ := toFloat(cluster.Rows(data, "Doc")[0][f.Name])
+		want := float64(1 + a + b + 1) // the shared creation + both histories + this node's own last update
+		d.res.Comparisons++
+		if got != want {
+			d.violate("C02", bi, 0, "counter", "deep history (%d and %d updates): %s on %s = %v, want %v (each merged increment once)", a, b, f.Name, d.nodes[ni].Name, got, want)
 		}
 	}
 }
